@@ -356,16 +356,22 @@ def _check_imports(case, tree, root, roots, ctx):
             if ctx is not None:
                 ctx.notes['import_skipped_name_taken'] += 1
             continue
-        # any raising module on the import chain?
+        # any module on the import chain that cannot be imported?  (it raises itself, or - transitively - imports a sibling
+        # that raises or that is shadowed by an empty, unloadable extension file)
         chain = ['/'.join(parts[:j] + ['__init__.py']) for j in range(k + 1, len(parts))] + [rel]
-        will_raise = any(c in raising for c in chain)
-        sib = dict((f, s) for f, s in case.get('sibling', []))
-        for c in chain:
-            if c in sib:
-                sp = '/'.join(c.split('/')[:-1] + [sib[c] + '.py'])
-                stem = sp[:-3]
-                if sp in raising or any(stem + e in tree['files'] for e in mach.EXTENSION_SUFFIXES):
-                    will_raise = True     # the sibling raises, or is shadowed by an (empty, unloadable) extension file
+        sib = dict((f, s_) for f, s_ in case.get('sibling', []))
+
+        def fails(c, seen=()):
+            if c in raising:
+                return True
+            if c in seen or c not in sib:
+                return False
+            sp = '/'.join(c.split('/')[:-1] + [sib[c] + '.py'])
+            stem = sp[:-3]
+            if any(stem + e in tree['files'] for e in mach.EXTENSION_SUFFIXES):
+                return True
+            return fails(sp, seen + (c,))
+        will_raise = any(fails(c) for c in chain)
         on_path = bool(case.get('root_on_path'))
         if on_path:
             # the directory is already a search path entry (at the front): it must still be exactly there afterwards
